@@ -119,7 +119,7 @@ impl Op {
     }
 }
 
-pub const NAV_NAMES: [&str; 8] = ["view_mut_at", "view_mut().find", "view_mut().find_exact", "view_mut().find_lpm", "view_mut_at+left", "view_mut_at+right", "view_mut_at+split.0", "view_mut_at+split.1"];
+pub const NAV_NAMES: [&str; 9] = ["view_mut_at", "view_mut().find", "view_mut().find_exact", "view_mut().find_lpm", "view_mut_at+left", "view_mut_at+right", "view_mut_at+split.0", "view_mut_at+split.1", "view_mut_at(anchor)+find_exact"];
 
 pub struct Cx<'a> {
     pub uni: &'a Universe,
@@ -184,11 +184,12 @@ fn nav_view<'a, P: PType>(
     k: GK,
     nav: u32,
     out: &mut Vec<Viol>,
+    uni_keys: &[GK],
 ) -> (Option<TrieViewMut<'a, P, u32>>, Option<GK>) {
     let uni_width = P::WIDTH;
     let p: P = mkp(k);
     let nk = norm(k);
-    let site = NAV_NAMES[nav as usize];
+    let site = NAV_NAMES[(nav as usize).min(8)];
     let exists_under = top_node_under(w, nk).is_some();
     let (v, want): (Option<TrieViewMut<'a, P, u32>>, Option<GK>) = match nav {
         0 => (map.view_mut_at(p), exists_under.then_some(nk)),
@@ -206,8 +207,27 @@ fn nav_view<'a, P: PType>(
             });
             (v, want)
         }
-        _ => unreachable!(),
+        _ => {
+            // two-step navigation: a mutable view at another key of the universe (the anchor), then
+            // find_exact for the target from there; it succeeds iff the target is stored inside the anchor view
+            let anchor = uni_keys[(nav as usize - 8) % uni_keys.len()];
+            let v = map.view_mut_at(mkp::<P>(anchor)).and_then(|v| v.find_exact(&p).ok());
+            let want = (top_node_under(w, anchor).is_some() && covers(anchor, nk) && model.get(nk).is_some()).then_some(nk);
+            (v, want)
+        }
     };
+    if nav >= 8 {
+        match (&v, want) {
+            (None, None) => {}
+            (Some(v), Some(wk)) => {
+                let got = norm(v.prefix().raw());
+                expect!(out, got == wk, "C12", "view_mut_at+find_exact", "view-at-wrong-position", "target {:x?}: view positioned at {:x?}", k, got);
+            }
+            (None, Some(_)) => out.push(Viol::new("C12", "view_mut_at+find_exact", "view-missing", format!("target {:x?} is stored inside the anchor view but was not found", k))),
+            (Some(v), None) => out.push(Viol::new("C12", "view_mut_at+find_exact", "view-unexpected", format!("target {:x?}: found a view at {:x?} although the target is not stored inside the anchor view", k, v.prefix().raw()))),
+        }
+        return (v, want);
+    }
     let prop = if nav == 0 || nav >= 4 { "C11" } else { "C12" };
     // the entries that the expected view has to address (sides: judged on entries, not on position,
     // because the property does not prescribe where a side view is positioned)
@@ -484,8 +504,19 @@ pub fn apply<P: PType>(map: &mut PrefixMap<P, u32>, model: &mut Model, w: &Walk,
         }
         K::ViewSet | K::ViewRemove => {
             let nav = op.arg;
-            let (v, want) = nav_view(map, model, w, k, nav, &mut out);
+            let (v, want) = nav_view(map, model, w, k, nav, &mut out, &uni.keys);
             if let Some(mut v) = v {
+                if want.is_none() {
+                    // the abstract map has no such view: in the abstract history nothing is written.
+                    // The real call sequence goes on (a client would write through the handle it got),
+                    // and the contents comparison after the transition shows the damage (C01).
+                    if op.kind == K::ViewSet {
+                        let _ = v.set(tok);
+                    } else {
+                        let _ = v.remove();
+                    }
+                    return out;
+                }
                 let at = norm(v.prefix().raw());
                 let view_repr = v.prefix().raw();
                 let is_node = node_at(w, at).is_some();
@@ -521,7 +552,7 @@ pub fn apply<P: PType>(map: &mut PrefixMap<P, u32>, model: &mut Model, w: &Walk,
             }
         }
         K::ViewWrite => {
-            let (v, _) = nav_view(map, model, w, k, 0, &mut out);
+            let (v, _) = nav_view(map, model, w, k, 0, &mut out, &uni.keys);
             if let Some(mut v) = v {
                 let at = norm(v.prefix().raw());
                 let had = model.obs_of(at);
@@ -703,8 +734,8 @@ pub fn enumerate_ops(uni: &Universe, model: &Model, alpha: Alphabet, rep_mode: u
             (K::GetMutWrite, vec![0]),
             (K::GetLpmMutWrite, vec![0]),
             (K::ChildrenMutWrite, vec![0]),
-            (K::ViewSet, (0..8).collect()),
-            (K::ViewRemove, (0..8).collect()),
+            (K::ViewSet, (0..8 + nkeys as u32).collect()),
+            (K::ViewRemove, (0..8 + nkeys as u32).collect()),
             (K::ViewWrite, (0..5).collect()),
             (K::IntoChildrenCollect, vec![0]),
         ],
